@@ -354,13 +354,26 @@ func semProgramKeyed(r *explore.Run, be *semBackend, p *prog, d int, sc string) 
 	}
 }
 
+// semExtra: further executable families contributed by other files of this package (appended in init
+// functions); each is run by all four semantic checks at the default option set (all option sets within
+// one deviation in the thorough tier).
+var semExtra []func(thorough bool) *wgen.Family
+
 func runSem(be *semBackend) int {
 	r := explore.New(be.prop)
 	fams := append(quickFamilies(r), wgen.F3(r.Thorough()), wgen.F4Access(), wgen.F4Idx())
+	nbase := len(fams)
+	for _, f := range semExtra {
+		fams = append(fams, f(r.Thorough()))
+	}
+	extraFam := map[string]bool{}
+	for _, f := range fams[nbase:] {
+		extraFam[f.Name] = true
+	}
 	d1 := 1
 	forEachProgram(r, fams, nil, func(p *prog) {
 		d := d1
-		if (strings.HasPrefix(p.Case.Family, "F2") || strings.HasPrefix(p.Case.Family, "F3") || strings.HasPrefix(p.Case.Family, "F4c")) && !r.Thorough() {
+		if (strings.HasPrefix(p.Case.Family, "F2") || strings.HasPrefix(p.Case.Family, "F3") || strings.HasPrefix(p.Case.Family, "F4c") || extraFam[p.Case.Family]) && !r.Thorough() {
 			d = 0
 		}
 		semProgram(r, be, p, d)
